@@ -683,6 +683,7 @@ def o_c16(ctx):
     impl = impl_mod()
     srcs = P.corpus_sources() + [s for s, _ in S.gen_sources(S.n_for(150, 3000), salt="c16")] + S.mutated_sources(S.n_for(80, 1500), salt="c16/m")
     srcs = [s for s in srcs if "\r" not in s.replace("\r\n", "")]
+    srcs += ["\ufeffFeature: f\n  Scenario: s\n    Given g\n", "\ufeff# language: fr\nFonctionnalité: f\n", "Feature: f\n  \ufeffScenario: s\n    Given \ufeff g\n"]
     r = rng("c16o")
     D = S.dialects()
     for code in sorted(D)[::S.n_for(6, 1)]:
@@ -1413,7 +1414,8 @@ def c19_keywords(ctx):
 def c19_tables_tags(ctx):
     reqs = []
     ms = S.mstate("en")
-    rows = ["| a | b |", "| --- | :-: |", "|---|", "| a | - |", "|:--|--:|", "| x \\| y |", "|", "| -x |", "| - \\n |", "a | b"]
+    rows = ["| a | b |", "| --- | :-: |", "|---|", "| a | - |", "|:--|--:|", "| x \\| y |", "|", "| -x |", "| - \\n |", "a | b",
+            "| a |  | c |", "| name | |", "||", "| : | x |", "| :: |", "| a | --- |", "|  | --- |"]
     for n in range(0, 9):
         for ws in (" ", "\t", "\xa0"):
             for row in rows:
@@ -1998,3 +2000,159 @@ def o_c15_stream(ctx):
 
 
 P.PROPS["C15"]["streams"].append(o_c15_stream)
+
+
+# ---------------------------------------------------------------- round-5 strengthening
+
+def c10_dialect_sequences(ctx):
+    """types through the real matcher: every dialect, '*' and and/but after a typed step (a keyword listed in some but not all
+    of the given/when/then lists is still Unknown exactly when it is listed more than once)"""
+    D = S.dialects()
+    reqs = []
+    for code in sorted(D):
+        d = D[code]
+        star = "* " if any("* " in d[r_] for r_ in ("given", "when", "then", "and", "but")) else None
+        giv = [k for k in d["given"] if k != "* "][:1]
+        whn = [k for k in d["when"] if k != "* "][:1]
+        thn = [k for k in d["then"] if k != "* "][:1]
+        andk = [k for k in d["and"] if k != "* "][:1]
+        seqs = []
+        for a in giv + whn + thn:
+            for b in ([star] if star else []) + andk:
+                seqs.append([a, b] + andk)
+                seqs.append([b, a, b])
+        body = ""
+        for i, sq in enumerate(seqs):
+            body += "  " + d["scenario"][0] + ": s%d\n" % i + "".join("    %sx\n" % k for k in sq)
+        reqs.append(("events", [False, False, True, False, [["u", "# language: %s\n%s: f\n%s" % (code, d["feature"][0], body)]]]))
+
+    def pr(r_, req=None):
+        if "envelopes" not in r_:
+            return {"outcome": outcome(r_)}
+        return [pk_types(e["pickle"]) for e in r_["envelopes"] if "pickle" in e]
+    return differential("dialect-type-sequences", reqs, proj=pr, nontrivial=lambda q, x: q[1][4][0][1][:40] if x.get("envelopes") else None,
+                        classify=lambda q, x: "dialects", exhaustive=True)
+
+
+P.PROPS["C10"]["streams"].append(c10_dialect_sequences)
+
+
+def c08_placeholder_tags(ctx):
+    """tags are carried by name: a tag that spells a placeholder is not interpolated"""
+    src = ("@f-<a> @<b>\nFeature: f\n  @r<a>\n  Rule: r\n    @s-<a>-<b> @<a><a>\n    Scenario Outline: o <a>\n      Given <a> <b>\n"
+           "      @e-<a>\n      Examples:\n        | a | b |\n        | 1 | 2 |\n      @e2-<b> @<missing>\n      Examples:\n        | b | a |\n        | 3 | 4 |\n"
+           "    @p-<a>\n    Scenario: plain\n      Given x\n")
+    reqs = [("events", [False, False, True, False, [["u", src]]])]
+
+    def pr(r_, req=None):
+        if "envelopes" not in r_:
+            return {"outcome": outcome(r_)}
+        return [pk_tags(e["pickle"]) for e in r_["envelopes"] if "pickle" in e]
+    return differential("placeholder-tags", reqs, proj=pr, nontrivial=lambda q, x: "doc", classify=lambda q, x: "doc", exhaustive=True)
+
+
+P.PROPS["C08"]["streams"].append(c08_placeholder_tags)
+
+
+def c09_multiline_placeholder(ctx):
+    """a header cell may contain a line feed (cell escape); its placeholder then spans two lines of a doc string"""
+    src = ("Feature: f\n  Scenario Outline: o <a\\nb> <c>\n    Given s <c>\n      \"\"\"<c>\n      start <a\n      b> end\n      <c>\n      \"\"\"\n"
+           "    And t\n      | <a\\nb> | x |\n    Examples:\n      | a\\nb | c |\n      | V | W |\n      | <c> | two\\nlines |\n")
+    reqs = [("events", [False, False, True, False, [["u", src]]])]
+
+    def pr(r_, req=None):
+        if "envelopes" not in r_:
+            return {"outcome": outcome(r_)}
+        return [{"name": e["pickle"]["name"], "steps": [[st["text"], st.get("argument")] for st in e["pickle"]["steps"]]} for e in r_["envelopes"] if "pickle" in e]
+    return differential("multi-line-placeholder", reqs, proj=pr, nontrivial=lambda q, x: "doc", classify=lambda q, x: "doc", exhaustive=True)
+
+
+P.PROPS["C09"]["streams"].append(c09_multiline_placeholder)
+
+
+def c15_shared_keyword_texts(ctx):
+    """a keyword spelled alike in two dialects keeps each dialect's own type, whatever was parsed before in this process"""
+    D = S.dialects()
+    cat = {}
+    for code in sorted(D):
+        for role in ("given", "when", "then", "and", "but"):
+            for k in D[code][role]:
+                if k != "* ":
+                    cat.setdefault(k, {}).setdefault(code, set()).add(role)
+    reqs = []
+    for k, by in sorted(cat.items()):
+        codes = sorted(by)
+        pairs = [(a, b) for a in codes for b in codes if a < b and by[a] != by[b]]
+        for a, b in pairs[:3]:
+            def doc(code):
+                d = D[code]
+                return "# language: %s\n%s: f\n  %s: s\n    %sx\n    %sy\n" % (code, d["feature"][0], d["scenario"][0], [g for g in d["given"] if g != "* "][0], k)
+            reqs.append(("parse_history", ["en", [[False, doc(a)], [False, doc(b)], [False, doc(a)]]]))
+            reqs.append(("parse_history", ["en", [[False, doc(b)], [False, doc(a)]]]))
+
+    def proj(res, req=None):
+        return [P.p_keywords(x) for x in res] if isinstance(res, list) else res
+    return differential("keyword-shared-between-dialects", reqs, proj=proj, nontrivial=lambda q, x: canon(q[1])[:200], classify=lambda q, x: "hist", exhaustive=True)
+
+
+P.PROPS["C15"]["streams"].append(c15_shared_keyword_texts)
+
+
+def o_source_files(pid):
+    """source_events.SourceEvents: the text of the file reaches the stream unchanged (CRLF, lone CR, BOM, no final newline),
+    and locations name the physical lines of the file"""
+    def run(ctx):
+        import shutil
+        impl = impl_mod()
+        from gherkin.stream.source_events import SourceEvents
+        texts = ["Feature: f\r\n  Scenario: s\r\n    Given g\r\n", "Feature: f\n  desc with\rlone CR\n  Scenario: s\n    Given g\n      \"\"\"\n      a\rb\n      \"\"\"\n    And bad here\n  oops\n",
+                 "\ufeffFeature: f\n", "Feature: f\n  Scenario: s\n    Given g", "Feature: f\r\n\r\n  # c\r\n  Scenario: s\r\n    Given g\r\n    oops\r\n", "",
+                 "Feature: é😀\n  Scenario: s\n    Given 😀 g\n      | a\u2028b |\n"]
+
+        def check(text):
+            d = tempfile.mkdtemp(prefix="verif-src-")
+            try:
+                path = os.path.join(d, "x.feature")
+                with open(path, "w", encoding="utf8", newline="") as f:
+                    f.write(text)
+                evs = list(SourceEvents([path]).enum())
+                if len(evs) != 1 or "source" not in evs[0]:
+                    return {"what": "SourceEvents did not yield one source event: %r" % (evs,)}
+                src = evs[0]["source"]
+                if src.get("data") != text:
+                    return {"what": "the source envelope's data is not the file's text", "data": src.get("data"), "file": text}
+                if src.get("uri") != path or src.get("mediaType") != "text/x.cucumber.gherkin+plain":
+                    return {"what": "source envelope uri / mediaType"}
+                via_file = impl.events(True, True, True, False, [[path, src["data"]]])
+                via_text = impl.events(True, True, True, False, [[path, text]])
+                if canon(via_file) != canon(via_text):
+                    return {"what": "envelopes from the file's source event differ from those of the same text"}
+                # physical lines: split on LF only
+                lines = text.split("\n")
+                for e in via_file.get("envelopes", []):
+                    for loc in collect(e, "location"):
+                        if not (1 <= loc["line"] <= len(lines) + 1):
+                            return {"what": "location %r outside the file's %d physical lines" % (loc, len(lines))}
+                return None
+            finally:
+                shutil.rmtree(d, ignore_errors=True)
+        return oracle("source-files", texts, check, describe=lambda t: t[:80])
+    run.__name__ = "o_source_files_" + pid
+    return run
+
+
+for _pid in ("C04", "C16", "C17"):
+    P.PROPS[_pid]["streams"].append(o_source_files(_pid))
+
+
+def c14_language_lines(ctx):
+    """a document is rejected for its language header exactly when the header names an unknown dialect: first lines that
+    only look like a header (digits, non-ASCII letters, case variants) are comments"""
+    heads = ["#language: en2", "# language: v2", "# language: français", "#language: en_", "# language: é", "#language: 2", "# language: fr2 ",
+             "#language: en.", "# language: sr-Cyrl", "# language: SR-cyrl", "#language: EN", "# language: en", "#language:no-such", "  # language: zz  ",
+             "# language: en-tx", "#language: fr x", "# language:", "#language: fr#"]
+    srcs = [h + "\nFeature: f\n  Scenario: s\n    Given g\n" for h in heads] + ["\n" + h + "\nFeature: f\n" for h in heads[:6]]
+    return e2e("language-first-lines", srcs, P.p_errors, modes=(False, True), nontrivial=lambda q, x: q[1][2][:40], exhaustive=True)
+
+
+P.PROPS["C14"]["streams"] += [c14_language_lines, P.unit_language]
